@@ -342,6 +342,128 @@ func c06ReturnExprs(fd *ast.FuncDecl) []string {
 	return out
 }
 
+// c06Skeleton: the statements of fd that involve one of the given local variables or callees, in source order:
+// "assign:<stmt>" (first LHS in vars), "if:<cond>" / "case:<cond>" (condition mentions a var; suffixed with
+// " [returns]" when the branch ends in a return), "call:<callee>(<args>)" (callee in callees).
+func c06Skeleton(fd *ast.FuncDecl, vars, callees []string) []string {
+	var out []string
+	if fd == nil || fd.Body == nil {
+		return out
+	}
+	in := func(set []string, n string) bool {
+		for _, x := range set {
+			if x == n {
+				return true
+			}
+		}
+		return false
+	}
+	mentions := func(e ast.Node) bool {
+		hit := false
+		ast.Inspect(e, func(n ast.Node) bool {
+			if id, ok := n.(*ast.Ident); ok && in(vars, id.Name) {
+				hit = true
+			}
+			return !hit
+		})
+		return hit
+	}
+	ends := func(list []ast.Stmt) string {
+		if len(list) > 0 {
+			if _, ok := list[len(list)-1].(*ast.ReturnStmt); ok {
+				return " [returns]"
+			}
+		}
+		return ""
+	}
+	ast.Inspect(fd.Body, func(n ast.Node) bool {
+		switch x := n.(type) {
+		case *ast.AssignStmt:
+			if id, ok := x.Lhs[0].(*ast.Ident); ok && len(x.Lhs) == 1 && in(vars, id.Name) {
+				out = append(out, "assign:"+c06src(x))
+			}
+		case *ast.IfStmt:
+			if mentions(x.Cond) {
+				out = append(out, "if:"+c06src(x.Cond)+ends(x.Body.List))
+			}
+		case *ast.CaseClause:
+			for _, e := range x.List {
+				if mentions(e) {
+					out = append(out, "case:"+c06src(e)+ends(x.Body))
+				}
+			}
+		case *ast.CallExpr:
+			if in(callees, exprName(x.Fun)) {
+				as := make([]string, len(x.Args))
+				for i, a := range x.Args {
+					as[i] = c06src(a)
+				}
+				out = append(out, "call:"+exprName(x.Fun)+"("+strings.Join(as, ", ")+")")
+			}
+		}
+		return true
+	})
+	return out
+}
+
+// c06BodyTexts flattens the body of a small function into one source-text token per statement; an `if`
+// becomes "if <cond> {", its statements, "}" (and "} else {" …). Comments are not part of it.
+func c06BodyTexts(fd *ast.FuncDecl) []string {
+	var out []string
+	if fd == nil || fd.Body == nil {
+		return out
+	}
+	var walk func(list []ast.Stmt)
+	walk = func(list []ast.Stmt) {
+		for _, st := range list {
+			switch x := st.(type) {
+			case *ast.IfStmt:
+				hd := "if "
+				if x.Init != nil {
+					hd += c06src(x.Init) + "; "
+				}
+				out = append(out, hd+c06src(x.Cond)+" {")
+				walk(x.Body.List)
+				switch e := x.Else.(type) {
+				case *ast.BlockStmt:
+					out = append(out, "} else {")
+					walk(e.List)
+				case *ast.IfStmt:
+					out = append(out, "} else")
+					walk([]ast.Stmt{e})
+					continue
+				}
+				out = append(out, "}")
+			case *ast.BlockStmt:
+				walk(x.List)
+			default:
+				out = append(out, c06src(st))
+			}
+		}
+	}
+	walk(fd.Body.List)
+	return out
+}
+
+// c06CallArgTexts lists the argument lists (source text) of every call of `callee` inside fd.
+func c06CallArgTexts(fd *ast.FuncDecl, callee string) []string {
+	var out []string
+	if fd == nil || fd.Body == nil {
+		return out
+	}
+	ast.Inspect(fd.Body, func(n ast.Node) bool {
+		if ce, ok := n.(*ast.CallExpr); ok && exprName(ce.Fun) == callee {
+			as := make([]string, len(ce.Args))
+			for i, a := range ce.Args {
+				as[i] = c06src(a)
+			}
+			out = append(out, strings.Join(as, ", "))
+		}
+		return true
+	})
+	return out
+}
+
 func init() {
 	Register(Fact{Module: "C06", Gen: func(repo string) (string, error) {
 		_, cf, err := ParseFile(repo, "pkg/queue/constants.go")
@@ -518,6 +640,46 @@ func init() {
 		sb.WriteString("def isExpireCalls : List String := " + LeanStrList(CallSeq(ise)) + "\n")
 		sb.WriteString("def isExpireConds : List String := " + LeanStrList(c06IfConds(ise)) + "\n")
 		sb.WriteString("def isExpireLoop : List String := " + LeanStrList(c06RangeBodyKinds(ise)) + "\n")
+		// round 12: the replicator's index <-> sequence conversions (replica/replicator.go), the rewind at the
+		// start of a local replicator, the partition's index reset
+		_, rr, err := ParseFile(repo, "replica/replicator.go")
+		if err != nil {
+			return "", err
+		}
+		for _, m := range []string{"ReplicaIndex", "AckIndex", "AppendIndex", "ResetReplicaIndex", "ResetAppendIndex",
+			"SetAckIndex", "IgnoreMessage", "Consume", "Pending"} {
+			fd := FindFunc(rr, "replicator", m)
+			if fd == nil {
+				return "", fmt.Errorf("replicator.%s not found", m)
+			}
+			sb.WriteString("def repl" + m + "Body : List String := " + LeanStrList(c06BodyTexts(fd)) + "\n")
+		}
+		_, rl, err := ParseFile(repo, "replica/replicator_local.go")
+		if err != nil {
+			return "", err
+		}
+		nlr := FindFunc(rl, "", "NewLocalReplicator")
+		if nlr == nil {
+			return "", fmt.Errorf("NewLocalReplicator not found")
+		}
+		sb.WriteString("def localStartResetArgs : List String := " + LeanStrList(c06CallArgTexts(nlr, "lr.ResetReplicaIndex")) + "\n")
+		prr := FindFunc(rp, "partition", "ResetReplicaIndex")
+		if prr == nil {
+			return "", fmt.Errorf("partition.ResetReplicaIndex not found")
+		}
+		sb.WriteString("def partitionResetReplicaIndexBody : List String := " + LeanStrList(c06BodyTexts(prr)) + "\n")
+		// the position part of the remote replicator's handshake (replica/replicator_remote.go IsReady)
+		_, rm, err := ParseFile(repo, "replica/replicator_remote.go")
+		if err != nil {
+			return "", err
+		}
+		isr := FindFunc(rm, "remoteReplicator", "IsReady")
+		if isr == nil {
+			return "", fmt.Errorf("remoteReplicator.IsReady not found")
+		}
+		sb.WriteString("def remoteHandshake : List String := " + LeanStrList(c06Skeleton(isr,
+			[]string{"localReplicaIdx", "nextReplicaIdx", "appendIdx", "smallestAckIdx", "needResetReplicaIdx", "newLocalReplicaIdx"},
+			[]string{"r.ResetReplicaIndex", "r.ResetAppendIndex", "r.SetAckIndex"})) + "\n")
 		return sb.String(), nil
 	}})
 }
